@@ -434,6 +434,8 @@ class SimBus:
         if s is not None:
             s.point(("bus.send", src.name))
         self._check_format(msg)
+        # a real interface serialises the frame inside send(): later changes of the caller's buffer cannot reach it
+        msg = self._copy(msg)
         msg.timestamp = W.now
         W.now += 0.00025
         self.log.append((src.name, msg.arbitration_id, bytes(msg.data), bool(msg.is_remote_frame),
